@@ -236,6 +236,7 @@ func runC03(c *Ctx) {
 	c.R.RequireMin("R03.7", "Copyright Match literals", nCopyright, 1)
 
 	checkMatchImmutable(c, p)
+	checkTotalLines(c, p)
 	checkOrdering(c, p)
 	checkResultIsRetained(c, p)
 	checkKeyFormat(c, p, "R03.6")
@@ -318,17 +319,8 @@ func keyDecoderFuncs(p *core.Prog, lits []structLit) map[*ssa.Function]bool {
 // loopDepthOf: the number of loops of the function that contain block b (headers that dominate b and that b
 // can reach again).
 func loopDepthOf(b *ssa.BasicBlock) int {
-	reach := map[*ssa.BasicBlock]bool{}
-	var walk func(x *ssa.BasicBlock)
-	walk = func(x *ssa.BasicBlock) {
-		for _, sc := range x.Succs {
-			if !reach[sc] {
-				reach[sc] = true
-				walk(sc)
-			}
-		}
-	}
-	walk(b)
+	// the number of natural loops b belongs to: a header that dominates b counts only if b lies on a path back to it that
+	// does not leave the loop (a block behind the exit of an inner loop is dominated by that loop's header but not part of it)
 	n := 0
 	for h := b; h != nil; h = h.Idom() {
 		isHeader := false
@@ -337,7 +329,7 @@ func loopDepthOf(b *ssa.BasicBlock) int {
 				isHeader = true
 			}
 		}
-		if isHeader && reach[h] {
+		if isHeader && naturalLoop(h)[b] {
 			n++
 		}
 	}
@@ -1723,4 +1715,92 @@ func leavesEarly(header *ssa.BasicBlock) (bool, token.Pos) {
 		}
 	}
 	return false, token.NoPos
+}
+
+// checkTotalLines: R03.15. EndLine <= TotalInputLines holds because both are read off the tokens: every EndLine is the line of
+// a token, lines never decrease along the tokens, and TotalInputLines is the line of the LAST token (0 without tokens). A count
+// kept by other means (a field the tokenizer fills) has to agree with the token lines in every corner - an unterminated last
+// line, a word flushed after the count was taken - which this rule cannot establish, so it is reported.
+func checkTotalLines(c *Ctx, p *core.Prog) {
+	m := p.Func(v2pkg, "(*Classifier).match")
+	if m == nil {
+		return
+	}
+	n := 0
+	for _, b := range m.Blocks {
+		ret, ok := b.Instrs[len(b.Instrs)-1].(*ssa.Return)
+		if !ok || len(ret.Results) != 2 {
+			continue
+		}
+		if cst, isC := ret.Results[1].(*ssa.Const); !isC || cst.Value != nil {
+			continue
+		}
+		ld, ok := ret.Results[0].(*ssa.UnOp)
+		if !ok {
+			continue
+		}
+		al, ok := ld.X.(*ssa.Alloc)
+		if !ok {
+			continue
+		}
+		var val ssa.Value
+		for _, r := range *al.Referrers() {
+			if fa, isFA := r.(*ssa.FieldAddr); isFA && core.FieldName(fa) == "TotalInputLines" {
+				for _, u := range *fa.Referrers() {
+					if st, isSt := u.(*ssa.Store); isSt && st.Addr == ssa.Value(fa) {
+						val = st.Val
+					}
+				}
+			}
+		}
+		if val == nil {
+			continue
+		}
+		n++
+		bad := ""
+		seen := map[ssa.Value]bool{}
+		var walk func(v ssa.Value)
+		walk = func(v ssa.Value) {
+			v = core.Unspill(v)
+			if seen[v] || bad != "" {
+				return
+			}
+			seen[v] = true
+			switch x := v.(type) {
+			case *ssa.Const:
+				if k, isK := core.ConstInt(x); !isK || k != 0 {
+					bad = "the constant " + x.String()
+				}
+			case *ssa.Phi:
+				for _, e := range x.Edges {
+					walk(e)
+				}
+			case *ssa.UnOp:
+				fa, isFA := x.X.(*ssa.FieldAddr)
+				if !isFA || core.FieldName(fa) != "Line" {
+					bad = eng.Describe(x)
+					return
+				}
+				ia, isIA := fa.X.(*ssa.IndexAddr)
+				if !isIA || !strings.HasSuffix(core.AP(ia.X), ".Tokens") {
+					bad = "the line of something else than a token of the input"
+					return
+				}
+				bo, isBo := ia.Index.(*ssa.BinOp)
+				if !isBo || bo.Op != token.SUB || !strings.HasPrefix(core.AP(bo.X), "len(") {
+					bad = "the line of a token that is not the last one"
+				} else if k, isK := core.ConstInt(bo.Y); !isK || k != 1 {
+					bad = "the line of a token that is not the last one"
+				}
+			default:
+				bad = eng.Describe(v)
+			}
+		}
+		walk(val)
+		c.R.Check(bad == "", "R03.15", "match: TotalInputLines is the line of the last token (0 without tokens)", p.Pos(ret.Pos()), "Tokens[len(Tokens)-1].Line or 0",
+			"TotalInputLines is "+bad+": nothing ties it to the lines of the tokens, from which every EndLine is read - where the two counts disagree (an unterminated last line, a word flushed after the count was taken) a match ends behind the last line of the input")
+	}
+	if n == 0 {
+		c.R.Info("R03.15", "match: TotalInputLines", p.Pos(m.Pos()), "no Results literal with a TotalInputLines field on a successful return")
+	}
 }
